@@ -557,6 +557,11 @@ func init() {
 func c02strata(thorough bool) [][]byte {
 	var out [][]byte
 	add := func(s string) { out = append(out, []byte(s)) }
+	// many invalid UTF-8 bytes in string literals (the ValidateString repair pass works in
+	// rounds of 4096 positions): structure must survive the repair
+	for _, s := range volumeDocs() {
+		add(s)
+	}
 	maxL := 136
 	for L := 0; L <= maxL; L++ {
 		f := strings.Repeat("a", L)
